@@ -274,6 +274,8 @@ impl AsRange for DicomTime {
                 Some((f, fp)) => f * u32::pow(10, 6 - <u32>::from(fp)),
             },
         );
+        // leap second: chrono represents hh:mm:60.f as hh:mm:59 plus 1_000_000 + f microseconds
+        let (s, f) = if *s == 60 { (&59u8, f + 1_000_000) } else { (s, f) };
 
         NaiveTime::from_hms_micro_opt((*h).into(), (*m).into(), (*s).into(), f).context(
             InvalidTimeMicroSnafu {
@@ -296,6 +298,8 @@ impl AsRange for DicomTime {
                 }
             },
         );
+        // leap second: see `earliest`
+        let (s, f) = if self.second() == Some(&60) { (&59u8, f + 1_000_000) } else { (s, f) };
         NaiveTime::from_hms_micro_opt((*h).into(), (*m).into(), (*s).into(), f).context(
             InvalidTimeMicroSnafu {
                 h: *h as u32,
